@@ -25,7 +25,9 @@ Lists3 == {AllMarker,
            <<E("s1", "A"), E("s2", "B"), E("s10", "A")>>,
            <<E("s2", "B"), E("s1", U), E("s10", "B")>>,
            <<E("s1", "A"), E("s10", "B"), E("s2", "C")>>,
-           <<E("s1", U), E("s10", "B"), E("s2", U)>>}
+           <<E("s1", U), E("s10", "B"), E("s2", U)>>,
+           \* an explicitly empty label next to unlabelled samples: two populations, not one
+           <<E("s1", ""), E("s10", U), E("s2", "")>>}
 Lists3small == {AllMarker, <<E("s1", "A"), E("s10", "A"), E("s2", "B")>>, <<E("s10", "B"), E("s1", U)>>}
 
 \* representative record classes for histories (three columns a b c)
@@ -102,8 +104,11 @@ SpacedLists == {<<E("s1", "East Africa"), E("s10", "East Asia"), E("s2", "East A
                 <<E("s10", "East Asia"), E("s1", "East Africa")>>, <<E("s1", "x y"), E("s2", U), E("s10", "x  y")>>}
 \* names that equal an input sample only after trimming blanks are ABSENT samples
 PaddedLists == {<<E("s1", "A"), E(" s2", "A")>>, <<E("s2 ", U)>>, <<E("s1", "A"), E("s10 ", "B")>>}
-MCLists_perm == ListsOver(S3) \cup SpacedLists \cup PaddedLists \cup {AllMarker, <<>>, <<E("s1", "A"), E("z", "A")>>, <<E("z", U)>>}
-MCLists_perm_quick == {l \in ListsOver(S3) : Len(l) >= 2 /\ l[1].s # "s2"} \cup SpacedLists \cup PaddedLists \cup {AllMarker, <<>>, <<E("s1", "A"), E("z", "A")>>}
+\* an explicitly EMPTY label (`-s s1=`, or `s1<TAB>` in a file) names a population of its own, distinct from "no label"
+EmptyLabelLists == {<<E("s1", ""), E("s10", U)>>, <<E("s1", U), E("s10", "")>>, <<E("s1", ""), E("s10", "B"), E("s2", U)>>,
+                    <<E("s1", ""), E("s10", "")>>, <<E("s2", U), E("s1", ""), E("s10", U)>>}
+MCLists_perm == ListsOver(S3) \cup SpacedLists \cup PaddedLists \cup EmptyLabelLists \cup {AllMarker, <<>>, <<E("s1", "A"), E("z", "A")>>, <<E("z", U)>>}
+MCLists_perm_quick == {l \in ListsOver(S3) : Len(l) >= 2 /\ l[1].s # "s2"} \cup SpacedLists \cup PaddedLists \cup EmptyLabelLists \cup {AllMarker, <<>>, <<E("s1", "A"), E("z", "A")>>}
 \* three asymmetric records so that every permutation is visible in the result
 MCSeq_perm == {<<Row3(HET, HOM0, HOM0), Row3(HOM1, HET, HOM0), Row3(HOM1, HOM1, HET)>>,
                \* ... and a record at which sample c is haploid and b missing: matters exactly when they are listed
